@@ -155,6 +155,21 @@ pub trait Family: 'static + Sized {
     }
     /// Called on the model state when thread `t` finishes.
     fn m_on_finish(_m: &mut Self::M, _t: usize) {}
+    /// Cancellation whose destructors take scheduling steps of their own (async families).  Called
+    /// when an aborted task that has been polled is cancelled while suspended in `op` at `phase`.
+    /// `None` (the default) = the cancellation is ONE atomic `Finish` step with `m_on_finish`.
+    /// `Some(alts)`: the task's future is being dropped; every alternative is the model state after
+    /// the first atomic part of its destructors: `Done` = nothing further (the task is finished as
+    /// cancelled in the same step), `Cont(m, cphase)` = the task stays alive in *cancelling* mode and
+    /// goes on with `m_cancel_step` transitions, in its own scheduling steps, until one is `Done`.
+    /// `m_on_finish` is called when the task finishes, as always.
+    fn m_cancel_begin(_m: &Self::M, _t: usize, _op: &Self::Op, _phase: u8) -> Option<Vec<MStep<Self::M, ()>>> {
+        None
+    }
+    /// Micro-transitions of a task in cancelling mode (see `m_cancel_begin`). Empty = blocked.
+    fn m_cancel_step(m: &Self::M, _t: usize, _op: &Self::Op, _cphase: u8, _strict: bool) -> Vec<MStep<Self::M, ()>> {
+        vec![MStep::Done(m.clone(), ())]
+    }
     /// Weakened model only: thread `t` is held blocked by the modelled defect.
     fn m_forced_blocked(_m: &Self::M, _t: usize) -> bool {
         false
@@ -299,6 +314,9 @@ struct Ctx<F: Family> {
     prog: Arc<SS<Program<F>>>,
     objs: F::Objs,
     handles: RefCell<Vec<Option<shuttle::thread::JoinHandle<u32>>>>,
+    /// handles of scoped threads while their scope is open (lifetime erased; emptied before the
+    /// scope closure returns)
+    scoped: RefCell<Vec<Option<shuttle::thread::ScopedJoinHandle<'static, u32>>>>,
     ahandles: RefCell<Vec<Option<shuttle::future::JoinHandle<u32>>>>,
     /// one Vec per execution; the current execution's is the last
     log: Logs<F::Res>,
@@ -482,8 +500,15 @@ fn run_ops<F: Family>(
                 i += 1;
             }
             GOp::Join(ch) => {
-                let h = c.handles.borrow_mut()[*ch].take().expect("join without handle");
-                let r = GRes::Joined(h.join().ok() == Some(thread_ret(*ch)));
+                let scoped = c.scoped.borrow_mut()[*ch].take();
+                let r = match scoped {
+                    // join of a scoped thread inside its scope
+                    Some(h) => GRes::Joined(h.join().ok() == Some(thread_ret(*ch))),
+                    None => {
+                        let h = c.handles.borrow_mut()[*ch].take().expect("join without handle");
+                        GRes::Joined(h.join().ok() == Some(thread_ret(*ch)))
+                    }
+                };
                 push(i, EKind::Ret(r));
                 i += 1;
             }
@@ -522,10 +547,15 @@ fn run_ops<F: Family>(
                         let tid: usize = h.thread().id().into();
                         F::on_spawn(&c.objs, ch, h.thread());
                         push(begin, EKind::ChildTask2(ch, tid));
+                        // SAFETY: the handle is dropped (or joined) before this closure returns
+                        c.scoped.borrow_mut()[ch] = Some(unsafe { std::mem::transmute::<shuttle::thread::ScopedJoinHandle<'_, u32>, shuttle::thread::ScopedJoinHandle<'static, u32>>(h) });
                     }
                     push(begin, EKind::Ret(GRes::Unit));
                     run_ops::<F>(ctx, t, locals, begin + 1, end, push);
                     push(end, EKind::Call);
+                    for ch in children {
+                        c.scoped.borrow_mut()[*ch] = None;
+                    }
                 });
                 push(end, EKind::Ret(GRes::Unit));
                 i = end + 1;
@@ -613,6 +643,7 @@ pub fn make_body<F: Family>(prog: &Arc<SS<Program<F>>>, logs: &Logs<F::Res>, aux
             prog: prog.clone(),
             objs: F::make_objs(&prog.get().cfg, n),
             handles: RefCell::new((0..n).map(|_| None).collect()),
+            scoped: RefCell::new((0..n).map(|_| None).collect()),
             ahandles: RefCell::new((0..n).map(|_| None).collect()),
             log: logs.get().clone(),
         }));
@@ -787,6 +818,9 @@ pub const ABORTED: u8 = 2;
 pub const CANCELLED: u8 = 4;
 /// async families: the task has been polled at least once
 pub const STARTED: u8 = 8;
+/// async families: the task's future is being dropped by a cancellation whose destructors take
+/// scheduling steps (`Family::m_cancel_begin`); `phase` is then the cancel-phase
+pub const CANCELLING: u8 = 16;
 
 /// The execution is over once no attached task is unfinished (detached ones are cut off).
 pub fn execution_over<F: Family>(s: &GState<F>) -> bool {
@@ -889,14 +923,68 @@ fn g_steps_raw<F: Family>(p: &Program<F>, s: &GState<F>, t: usize, strict: bool)
         let pc = s.th[t].pc as usize;
         (!F::ASYNC || s.th[t].flags & STARTED != 0) && pc < p.threads[t].len() && matches!(&p.threads[t][pc], GOp::Op(o) if !F::m_abortable(o, s.th[t].phase))
     };
-    if s.th[t].flags & ABORTED != 0 && !in_unabortable_op {
-        // an aborted task may be cancelled whenever it is polled next: its future is dropped and it
-        // performs no further step (loose: the poll boundary is not modelled)
+    let cancelled = |m: F::M| {
         let mut n = s.clone();
+        n.m = m;
         n.th[t].st = St::Finished;
         n.th[t].flags |= CANCELLED;
+        n.th[t].flags &= !CANCELLING;
         F::m_on_finish(&mut n.m, t);
-        out.push((false, Label::Finish, n));
+        n
+    };
+    if s.th[t].flags & CANCELLING != 0 {
+        // the destructors of a cancelled task's future, step by step (`Family::m_cancel_begin`)
+        if let GOp::Op(o) = &p.threads[t][s.th[t].pc as usize] {
+            for st in F::m_cancel_step(&s.m, t, o, s.th[t].phase, strict) {
+                match st {
+                    MStep::Done(m, ()) | MStep::Spurious(m, ()) => out.push((false, Label::Finish, cancelled(m))),
+                    MStep::Cont(m, ph) => {
+                        let mut n = s.clone();
+                        n.m = m;
+                        n.th[t].phase = ph;
+                        out.push((false, Label::Eps, n));
+                    }
+                    MStep::Panic(cls) => {
+                        let mut n = s.clone();
+                        n.panic = Some(cls.clone());
+                        out.push((false, Label::Panic(cls), n));
+                    }
+                }
+            }
+        }
+        return out;
+    }
+    if s.th[t].flags & ABORTED != 0 && !in_unabortable_op {
+        // an aborted task may be cancelled whenever it is polled next: its future is dropped and it
+        // performs no further step (loose: the poll boundary is not modelled) — unless the family
+        // says the destructors take steps of their own
+        let pc = s.th[t].pc as usize;
+        let multi = match p.threads[t].get(pc) {
+            Some(GOp::Op(o)) if F::ASYNC && s.th[t].flags & STARTED != 0 => F::m_cancel_begin(&s.m, t, o, s.th[t].phase),
+            _ => None,
+        };
+        match multi {
+            None => out.push((false, Label::Finish, cancelled(s.m.clone()))),
+            Some(alts) => {
+                for st in alts {
+                    match st {
+                        MStep::Done(m, ()) | MStep::Spurious(m, ()) => out.push((false, Label::Finish, cancelled(m))),
+                        MStep::Cont(m, ph) => {
+                            let mut n = s.clone();
+                            n.m = m;
+                            n.th[t].phase = ph;
+                            n.th[t].flags |= CANCELLING;
+                            out.push((false, Label::Eps, n));
+                        }
+                        MStep::Panic(cls) => {
+                            let mut n = s.clone();
+                            n.panic = Some(cls.clone());
+                            out.push((false, Label::Panic(cls), n));
+                        }
+                    }
+                }
+            }
+        }
     }
     if F::ASYNC && s.th[t].flags & STARTED == 0 {
         // first poll of the task (a task aborted before it can only be cancelled)
